@@ -309,10 +309,7 @@ func checkMain(args []string) int {
 				wg3.Add(1)
 				go func(i int) {
 					defer wg3.Done()
-					tr := "0"
-					if i == 0 {
-						tr = "3"
-					}
+					tr := "1"
 					r := runWorker(s, fmt.Sprintf("q%d", i), "-queue", qdir, "-worker-id", strconv.Itoa(i), "-traces", tr)
 					resMu.Lock()
 					results = append(results, r)
@@ -633,20 +630,35 @@ func nativeReplay(repo, scratch, pkg, pkgName, intr string, harnessFiles, fns, s
 			continue
 		}
 		fmt.Printf("\nREPLAY-BEGIN %d\n", c.ID)
-		func() {
-			defer func() {
-				switch r := recover().(type) {
-				case nil:
-				case verifAssumeFailed:
-					fmt.Printf("\nREPLAY-ASSUME-FAILED %d\n", c.ID)
-				case verifAssertStop:
-				default:
-					fmt.Printf("\nREPLAY-PANIC %d %s\n", c.ID, strings.ReplaceAll(fmt.Sprint(r), "\n", " "))
-				}
+		// counterexamples that depend on map iteration order or goroutine scheduling cannot be
+		// forced natively: repeat until the failure shows (the Go runtime randomises both)
+		tries := 1
+		for k := range c.Model {
+			if strings.HasPrefix(k, "maporder") || strings.HasPrefix(k, "sched") || strings.HasPrefix(k, "select") {
+				tries = 60
+			}
+		}
+		for try := 0; try < tries; try++ {
+			failed := false
+			func() {
+				defer func() {
+					switch r := recover().(type) {
+					case nil:
+					case verifAssumeFailed:
+						fmt.Printf("\nREPLAY-ASSUME-FAILED %d\n", c.ID)
+					case verifAssertStop:
+					default:
+						failed = true
+						fmt.Printf("\nREPLAY-PANIC %d %s\n", c.ID, strings.ReplaceAll(fmt.Sprint(r), "\n", " "))
+					}
+				}()
+				verifReset(c.Model)
+				verifHarnesses[c.Harness]()
 			}()
-			verifReset(c.Model)
-			verifHarnesses[c.Harness]()
-		}()
+			if failed || len(verifFailures) > 0 {
+				break
+			}
+		}
 		for _, f := range verifFailures {
 			fmt.Printf("\nREPLAY-FAIL %d %s\n", c.ID, f)
 		}
